@@ -78,22 +78,26 @@ Unflat(lt, t, words, off) ==
                          IN  [i \in 1 .. Len(lt.ms) |-> Unflat(lt.ms[i].ty, lt.ms[i].ty, words, off + offs[i])]
     [] OTHER          -> words[(off \div 4) + 1]
 
-\* set of <<word index (1-based), word>> for every scalar leaf
+\* set of <<word index (1-based), word, kind>> for every scalar leaf; kind 1 = integer word, 2 = f32 word
 RECURSIVE FlatSet(_, _, _)
+FK(e) == IF e.k = "f32" THEN 2 ELSE 1
 FlatSet(lt, v, off) ==
-  CASE lt.k = "vec"    -> {<<(off \div 4) + i, v[i]>> : i \in 1 .. lt.n}
-    [] lt.k = "mat"    -> UNION {{<<((off + (c - 1) * ColStride(lt)) \div 4) + r, v[c][r]>> : r \in 1 .. lt.r} : c \in 1 .. lt.c}
+  CASE lt.k = "vec"    -> {<<(off \div 4) + i, v[i], FK(lt.e)>> : i \in 1 .. lt.n}
+    [] lt.k = "mat"    -> UNION {{<<((off + (c - 1) * ColStride(lt)) \div 4) + r, v[c][r], 2>> : r \in 1 .. lt.r} : c \in 1 .. lt.c}
     [] lt.k = "arr"    -> UNION {FlatSet(lt.e, v[i], off + (i - 1) * StrideOf(lt)) : i \in 1 .. Len(v)}
     [] lt.k = "struct" -> LET offs == Offsets(lt.ms)
                           IN  UNION {FlatSet(lt.ms[i].ty, v[i], off + offs[i]) : i \in 1 .. Len(lt.ms)}
-    [] OTHER           -> {<<(off \div 4) + 1, v>>}
+    [] lt.k = "atomic" -> {<<(off \div 4) + 1, v, 1>>}
+    [] OTHER           -> {<<(off \div 4) + 1, v, FK(lt)>>}
 
-\* final words of a buffer: leaves overwritten, padding keeps its initial content; and the mask of leaf words
+\* final words of a buffer: leaves overwritten, padding keeps its initial content; and the mask of compared words
+\* (0 = padding, not compared; 1 = integer word, bit-exact; 2 = f32 word, bit-exact except that +0 and -0 are not
+\* distinguished: WGSL does not pin the sign of a zero result)
 FlatWords(lt, v, init) ==
   LET fs == FlatSet(lt, v, 0)
   IN  [i \in 1 .. Len(init) |-> IF \E p \in fs : p[1] = i THEN (CHOOSE p \in fs : p[1] = i)[2] ELSE init[i]]
 FlatMask(lt, v, n) ==
-  LET idx == {p[1] : p \in FlatSet(lt, v, 0)} IN [i \in 1 .. n |-> IF i \in idx THEN 1 ELSE 0]
+  LET fs == FlatSet(lt, v, 0) IN [i \in 1 .. n |-> IF \E p \in fs : p[1] = i THEN (CHOOSE p \in fs : p[1] = i)[3] ELSE 0]
 
 (***************************************************************************)
 (* Value trees                                                             *)
@@ -201,8 +205,10 @@ ConvS(from, to, a) ==
   CASE from = to -> <<TRUE, a>>
     [] to = "bool" -> IF from = "f32" THEN <<~FIsNaN(a), B(~FIsZero(a))>> ELSE <<TRUE, B(a # 0)>>
     [] from = "bool" -> <<TRUE, IF to = "f32" THEN (IF a = 1 THEN FOne ELSE PosZero) ELSE a>>
-    [] from = "f32" /\ to = "i32" -> <<FToSOk(a) /\ ~FIsSub(a), FToS(a)>>
-    [] from = "f32" /\ to = "u32" -> <<FToSOk(a) /\ ~FIsSub(a), FToU(a)>>
+    \* f32 -> integer: truncation toward zero, saturating.  At the upper end implementations differ between the type's
+    \* maximum (2147483647 / 4294967295) and the largest f32 below it (2147483520 / 4294967040): left undecided.
+    [] from = "f32" /\ to = "i32" -> <<FOk(a) /\ ~(a > 0 /\ FExp(a) >= 8), IF FOk(a) THEN FToS(a) ELSE 0>>
+    [] from = "f32" /\ to = "u32" -> <<FOk(a) /\ ~(a > 0 /\ FExp(a) >= 9), IF FOk(a) THEN FToU(a) ELSE 0>>
     [] from = "i32" /\ to = "f32" -> <<SToFOk(a), IF SToFOk(a) THEN SToF(a) ELSE 0>>
     [] from = "u32" /\ to = "f32" -> <<UToFOk(a), IF UToFOk(a) THEN UToF(a) ELSE 0>>
     [] OTHER -> <<TRUE, a>>                        \* i32 <-> u32: same bits
